@@ -311,6 +311,8 @@ type Machine struct {
 	reads         int     // rand.Read calls
 	draws         []drawRec
 	summary       bool
+	drawLimit     int
+	drawLimitMsg  string
 	replayIdx     int
 	replayEnd     int
 	fault         *faultSpec
@@ -448,6 +450,7 @@ func (m *Machine) resetPath(prefix []int) {
 	m.draws = nil
 	m.summary = false
 	m.replayIdx, m.replayEnd = -1, 0
+	m.drawLimit, m.drawLimitMsg = 0, ""
 	m.fault = nil
 	m.faultHit = false
 	m.shortReads = false
